@@ -340,6 +340,26 @@ func (w *cliWorld) apply(po *cli.ProjectOptions, st cliStep, alt bool) (out map[
 			}
 		}
 		return out, ""
+	case "load-model":
+		m, err := po.LoadModel(context.Background())
+		if err != nil {
+			return map[string]interface{}{"err": true}, err.Error()
+		}
+		name, _ := m["name"].(string)
+		out = map[string]interface{}{"name": name, "vv": "?"}
+		svcs, _ := m["services"].(map[string]interface{})
+		for sn, sv := range svcs {
+			img, _ := sv.(map[string]interface{})["image"].(string)
+			vv := strings.TrimPrefix(img, "img-"+name+"-")
+			if vv == img {
+				return out, fmt.Sprintf("@@interp: image of %s in the model is %q; name %q", sn, img, name)
+			}
+			if out["vv"] != "?" && out["vv"] != vv {
+				return out, fmt.Sprintf("@@interp: services of the model interpolate VV differently (%v, %v)", out["vv"], vv)
+			}
+			out["vv"] = vv
+		}
+		return out, ""
 	default:
 		return map[string]interface{}{"err": true}, "unknown action " + st.act
 	}
@@ -406,11 +426,11 @@ func cliClassify(act string, exp, got map[string]interface{}, note string) (sig 
 		return "cli:panic:" + act, true
 	case strings.HasPrefix(note, "@@env"), strings.HasPrefix(note, "@@interp"):
 		return "cli:name-not-visible", true
-	case act == "load" && !expErr && !gotErr && asStr(exp["name"]) != asStr(got["name"]):
+	case strings.HasPrefix(act, "load") && !expErr && !gotErr && asStr(exp["name"]) != asStr(got["name"]):
 		return "cli:load:wrong-name", true
-	case act == "load" && !expErr && !gotErr && (asStr(exp["vv"]) != asStr(got["vv"]) || asBool(exp["hasvv"]) != asBool(got["hasvv"])):
+	case strings.HasPrefix(act, "load") && !expErr && !gotErr && (asStr(exp["vv"]) != asStr(got["vv"]) || asBool(exp["hasvv"]) != asBool(got["hasvv"])):
 		return "cli:load:environment", true
-	case act == "load" && expErr != gotErr:
+	case strings.HasPrefix(act, "load") && expErr != gotErr:
 		return "cli:load:outcome", true
 	case act == "env" || act == "os-env" || act == "dot-env" || act == "name":
 		// the project environment (explicit over OS over .env files) and the explicit name are built by these
@@ -558,7 +578,7 @@ func c17Cli(c *core.Ctx) {
 	c.Set("cli_transitions", len(edges))
 	c.Set("cli_transitions_by_action", acts)
 	c.Logf("cli options: %d transitions of %d worlds replayed", len(edges), len(worlds))
-	for _, a := range []string{"name", "workdir", "config-file-env", "default-config-path", "env", "os-env", "env-files-default", "env-files", "dot-env", "load"} {
+	for _, a := range []string{"name", "workdir", "config-file-env", "default-config-path", "env", "os-env", "env-files-default", "env-files", "dot-env", "load", "load-model"} {
 		if acts[a] == 0 {
 			c.Inconclusive("no transition of action " + a + " in the model")
 			return
@@ -613,7 +633,7 @@ func c17Cli(c *core.Ctx) {
 			if strings.HasPrefix(note, "@@") || strings.HasPrefix(note, "panic") {
 				report(w, st, from, map[string]interface{}{}, got, note, "random sequence")
 			}
-			if _, failed := got["err"]; failed || st.act == "load" {
+			if _, failed := got["err"]; failed || strings.HasPrefix(st.act, "load") {
 				break
 			}
 			from = got
@@ -749,7 +769,7 @@ func cliRandomWorld(rng *rand.Rand) *cliWorld {
 
 func cliRandomStep(rng *rand.Rand, last bool) cliStep {
 	if last {
-		return cliStep{"load", 0}
+		return cliStep{[]string{"load", "load", "load-model"}[rng.Intn(3)], 0}
 	}
 	switch rng.Intn(12) {
 	case 0:
